@@ -132,6 +132,26 @@ Proof.
 Qed.
 Print Assumptions C02_wf_state_invariant.
 
+(* Hostmasks.  ircutils.isUserHostmask is the only validation between `user hostmask add` / IrcUser.addHostmask and
+   the "hostmask ..." line of users.conf.  The pattern in the source is the one the model mirrors; what the commands
+   store passed it; and whatever passes it is a single whitespace-free token followed by at most one newline, hence
+   occupies one line of the file (plus a blank one) and is read back as that token.  (A pattern that lets whitespace
+   into the user part -- e.g. [^@]+ -- breaks the first and, mirrored in the model, the third statement.) *)
+Theorem C02_hostmask_re_pinned : hostmask_re_ok gen.T02.USERHOSTMASK_RE = true.
+Proof. vm_compute. reflexivity. Qed.
+Print Assumptions C02_hostmask_re_pinned.
+
+Theorem C02_hostmask_add_validated :
+  forall s E text a h, effect_of s E text = ESet a (MHostAdd h) -> C16.Model.is_user_hostmask h = true.
+Proof. intros s E text a h H. pose proof (effect_of_inv s E text) as K. rewrite H in K. exact (proj2 K). Qed.
+Print Assumptions C02_hostmask_add_validated.
+
+Theorem C02_hostmask_one_line :
+  forall h, C16.Model.is_user_hostmask h = true ->
+  C16.Model.token (strip_lf h) = true /\ (strip_lf h = h \/ h = strip_lf h ++ [C16.Model.LF]).
+Proof. intros h H. split; [exact (C02.Reader.hm_token h H)|exact (C02.Reader.strip_lf_cases h)]. Qed.
+Print Assumptions C02_hostmask_one_line.
+
 (* the line separators of the REAL reader (unpreserve.Reader.readFile, regenerated table READER_LINESEPS) are exactly
    those of the model's reader, so the theorems below are about the line structure the bot really sees; and each of
    them is refused inside a user name by User._checkName (a reader that also ends lines at \x0b \x0c \x1c-\x1e \x85
